@@ -5,7 +5,7 @@
 use super::*;
 use super::super::permission::verif_kani::{any_permission, any_set};
 
-use crate::config::verif_kani::{const_finish, fixed_random_state, noop_write};
+use crate::config::verif_kani::fixed_random_state;
 
 fn handle(s: &'static str) -> MyHandle {
     MyHandle::new(s.into())
@@ -55,12 +55,10 @@ fn c13c_builtin_roles() {
 /// entry for CA "a", requests for "a" are answered from that entry (also when
 /// the blanket grant would allow more, or less), requests for any other CA
 /// from the blanket grant, non-CA requests from the general grant.
-// vk: timeout=900; unwindset=_RINvNvNtCs8xvirJzNMvV_4core3ptr25swap_nonoverlapping_bytes26swap_nonoverlapping_chunksKj8_ECscrgiVT8UQOZ_6object.0:8; bound=one per-CA entry, handles "a" and "b" concrete, all three permission sets and the permission symbolic; constant-hash stub
+// vk: timeout=900; bound=one per-CA entry, handles "a" and "b" concrete, all three permission sets and the permission symbolic; model map (harness/kani_map.rs)
 #[kani::proof]
 #[kani::unwind(4)]
 #[kani::stub(std::hash::RandomState::new, fixed_random_state)]
-#[kani::stub(<std::hash::DefaultHasher as std::hash::Hasher>::finish, const_finish)]
-#[kani::stub(<std::hash::DefaultHasher as std::hash::Hasher>::write, noop_write)]
 fn c13b_role_per_ca_precedence() {
     let none = any_set();
     let any = any_set();
@@ -68,7 +66,7 @@ fn c13b_role_per_ca_precedence() {
     let p = any_permission();
     let a = handle("a");
     let b = handle("b");
-    let mut map: HashMap<MyHandle, PermissionSet> = HashMap::with_hasher(fixed_random_state());
+    let mut map: HashMap<MyHandle, PermissionSet> = HashMap::new();
     map.insert(a.clone(), pa);
     let role = Role::complex(none, any, map);
     assert!(role.is_allowed(p, None) == none.has(p));
